@@ -1046,3 +1046,75 @@ Theorem C11_lits_exact_native : forall h w region st ans,
    <-> rules_lits (List.cons (List.cons (Z.of_nat h) (List.cons (Z.of_nat w) nil)) (List.cons region nil)) ans = true).
 Proof. exact lits_exact_prim. Qed.
 Print Assumptions C11_lits_exact_native.
+
+From Cspuz Require Import Lib.PyErr Core.Expr Core.Program Graph.Division Puzzle.DivisionCompose Puzzle.Rules_nurikabe Puzzle.NurikabePrim.
+Theorem C11_nurikabe_exact_native : forall h w grid st ans,
+  solve_nurikabe_model_prim (List.cons (List.cons (Z.of_nat h) (List.cons (Z.of_nat w) nil)) (List.cons grid nil)) = Ok st ->
+  ((exists en, model_of Division.division_gsem en st /\ reads st en (DivisionCompose.key_ids st) = ans)
+   <-> rules_nurikabe (List.cons (List.cons (Z.of_nat h) (List.cons (Z.of_nat w) nil)) (List.cons grid nil)) ans = true).
+Proof. exact nurikabe_exact_prim. Qed.
+Print Assumptions C11_nurikabe_exact_native.
+
+Theorem C11_nurikabe_model_defined_native : forall h w grid,
+  (exists st, solve_nurikabe_model_prim (List.cons (List.cons (Z.of_nat h) (List.cons (Z.of_nat w) nil)) (List.cons grid nil)) = Ok st)
+  <-> (h * w <= length grid)%nat.
+Proof. exact nurikabe_model_prim_defined. Qed.
+Print Assumptions C11_nurikabe_model_defined_native.
+
+From Cspuz Require Import Puzzle.Rules_compass Puzzle.Compass Puzzle.CompassPrim.
+Theorem C11_compass_exact_native : forall h w cps st ans,
+  solve_compass_model_prim (List.cons (List.cons (Z.of_nat h) (List.cons (Z.of_nat w) nil)) (List.cons cps nil)) = Ok st ->
+  ((exists en, model_of Division.division_gsem en st /\ reads st en (DivisionCompose.key_ids st) = ans)
+   <-> rules_compass (List.cons (List.cons (Z.of_nat h) (List.cons (Z.of_nat w) nil)) (List.cons cps nil)) ans = true).
+Proof. exact compass_exact_prim. Qed.
+Print Assumptions C11_compass_exact_native.
+
+Theorem C11_compass_key_ids_native : forall h w cps st,
+  solve_compass_model_prim (List.cons (List.cons (Z.of_nat h) (List.cons (Z.of_nat w) nil)) (List.cons cps nil)) = Ok st ->
+  DivisionCompose.key_ids st = seq 0 (h * w).
+Proof. exact compass_key_ids_prim. Qed.
+Print Assumptions C11_compass_key_ids_native.
+
+From Cspuz Require Import Graph.VarGroups Puzzle.Rules_fillomino Puzzle.FillominoPrim.
+Theorem C11_fillomino_exact_native : forall h w given st ans,
+  solve_fillomino_model_prim (List.cons (List.cons (Z.of_nat h) (List.cons (Z.of_nat w) nil)) (List.cons given nil)) = Ok st ->
+  ((exists en, model_of VarGroups.graph_sem en st /\ reads st en (seq 0 (h * w)) = ans)
+   <-> rules_fillomino (List.cons (List.cons (Z.of_nat h) (List.cons (Z.of_nat w) nil)) (List.cons given nil)) ans = true).
+Proof. exact fillomino_exact_prim. Qed.
+Print Assumptions C11_fillomino_exact_native.
+
+Theorem C11_fillomino_model_defined_native : forall h w given,
+  (exists st, solve_fillomino_model_prim (List.cons (List.cons (Z.of_nat h) (List.cons (Z.of_nat w) nil)) (List.cons given nil)) = Ok st)
+  <-> (0 < h * w <= length given)%nat.
+Proof. exact fillomino_model_prim_defined. Qed.
+Print Assumptions C11_fillomino_model_defined_native.
+
+From Cspuz Require Import Graph.Cycle Puzzle.CyclePrimCompose2 Puzzle.YajilinPrim Puzzle.CastleWallPrim Puzzle.SlalomPrim.
+Theorem C11_yajilin_exact_native : forall h w kind num st ans,
+  solve_yajilin_model_prim (List.cons (List.cons (Z.of_nat h) (List.cons (Z.of_nat w) nil)) (List.cons kind (List.cons num nil))) = Ok st ->
+  ((exists en, model_of gsem_c06 en st /\
+               reads st en (seq 0 (n_lattice_edges h w) ++ seq (n_lattice_edges h w + h * w) (h * w)) = ans)
+   <-> rules_yajilin (List.cons (List.cons (Z.of_nat h) (List.cons (Z.of_nat w) nil)) (List.cons kind (List.cons num nil))) ans = true).
+Proof. exact yajilin_exact_prim. Qed.
+Print Assumptions C11_yajilin_exact_native.
+
+Theorem C11_castle_wall_exact_native : forall h w kind num side st ans,
+  cw_wf h w kind side = true ->
+  solve_castle_wall_model_prim (List.cons (List.cons (Z.of_nat h) (List.cons (Z.of_nat w) nil))
+                                  (List.cons kind (List.cons num (List.cons side nil)))) = Ok st ->
+  ((exists en, model_of gsem_c06 en st /\ reads st en (seq 0 (h * (w - 1) + (h - 1) * w)) = ans)
+   <-> rules_castle_wall (List.cons (List.cons (Z.of_nat h) (List.cons (Z.of_nat w) nil))
+                            (List.cons kind (List.cons num (List.cons side nil)))) ans = true).
+Proof. exact castle_wall_exact_prim. Qed.
+Print Assumptions C11_castle_wall_exact_native.
+
+Theorem C11_slalom_exact_native : forall h w oy ox black gates st ans,
+  slalom_wf (List.cons (List.cons (Z.of_nat h) (List.cons (Z.of_nat w) nil))
+               (List.cons (List.cons oy (List.cons ox nil)) (List.cons black (List.cons gates nil)))) = true ->
+  solve_slalom_model_prim (List.cons (List.cons (Z.of_nat h) (List.cons (Z.of_nat w) nil))
+                             (List.cons (List.cons oy (List.cons ox nil)) (List.cons black (List.cons gates nil)))) = Ok st ->
+  ((exists en, model_of gsem_c06 en st /\ reads st en (seq 0 (n_lattice_edges h w)) = ans)
+   <-> rules_slalom (List.cons (List.cons (Z.of_nat h) (List.cons (Z.of_nat w) nil))
+                       (List.cons (List.cons oy (List.cons ox nil)) (List.cons black (List.cons gates nil)))) ans = true).
+Proof. exact slalom_exact_prim. Qed.
+Print Assumptions C11_slalom_exact_native.
